@@ -316,5 +316,10 @@ func dumpCtx(ctx *app.RequestContext) dump {
 func dumpReqObj(r *protocol.Request) dump   { d := dump{}; dumpReq(d, "req.", r); return d }
 func dumpRespObj(r *protocol.Response) dump { d := dump{}; dumpResp(d, "resp.", r); return d }
 func dumpURIObj(u *protocol.URI) dump       { d := dump{}; dumpURI(d, "req.uri.", u); return d }
-func dumpArgsObj(a *protocol.Args) dump     { d := dump{}; dumpArgs(d, "args.all", a); d.put("args.str", a.String()); return d }
+func dumpArgsObj(a *protocol.Args) dump {
+	d := dump{}
+	dumpArgs(d, "args.all", a)
+	d.put("args.str", a.String())
+	return d
+}
 func dumpCookieObj(c *protocol.Cookie) dump { d := dump{}; dumpCookie(d, "cookie.", c); return d }
